@@ -332,6 +332,13 @@ func run(c *core.Ctx) {
 	gens.Chains([]any{nil, "", int64(1), "x"}, tree("chains", true))
 	gens.IndentChains(tree("indent-chains", false))
 	gens.Tables(c.Quick(), !c.Quick(), tree("tables", true))
+	// the scale family: counts, depths and string lengths on both sides of every fixed capacity
+	sc := tree("scale", false)
+	for _, d := range gens.ScaleDocs(c.Quick()) {
+		if !sc(d.Tree) {
+			break
+		}
+	}
 }
 
 func nontrivial(t any) bool {
